@@ -54,7 +54,9 @@ def future_poll(ctx):
         # a future produced by a havocked async call: completes with an arbitrary value of its output type
         out_ty = poll_output_ty(ctx.dest_ty)
         ex.stats['havoc_calls']['await:' + v.ty[:60]] = ex.stats['havoc_calls'].get('await:' + v.ty[:60], 0) + 1
-        st.env['havoc'] = st.env.get('havoc', ()) + ('await:' + v.ty[:40],)
+        bh = getattr(ex, 'benign_havoc', None)
+        if not (bh is not None and bh.search('await:' + v.ty)):
+            st.env['havoc'] = st.env.get('havoc', ()) + ('await:' + v.ty[:40],)
         return mk_poll_ready(ex, ex.fresh(st, out_ty, 'aw'))
     raise Unsupported('poll on %r' % (v,))
 
